@@ -71,13 +71,29 @@ def main():
     finally:
         ex.close()
     scan_info = None
-    if prop == 'C16' and not engine_error:
+    if prop in ('C16', 'C05') and not engine_error:
         import engine
         import statescan
         P = engine.load_program(build['mir'], build['src'], cache_dir=build['dir'])
-        scan_info = statescan.scan(P, open(build['mir']).read())
-        for f in scan_info['findings']:
-            allv.append({'prop': 'C16', 'role': 'state/%s:%s' % (f['kind'], f.get('item', ','.join(f.get('functions', [])))), 'detail': json.dumps(f), 'trace': [], 'witness': {'input': json.dumps(f), 'agree': True, 'note': 'static call-graph finding on the MIR'}})
+        mir_text = open(build['mir']).read()
+        findings = []
+        if prop == 'C16':
+            scan_info = statescan.scan(P, mir_text)
+            findings += scan_info['findings']
+        # configuration construction (RewriterConfig::to_config -> generate_prefix_stmts, CsiMethods::new): a static reachable from
+        # it makes the configuration (prologue, method table) of one rewriter depend on rewriters built earlier in the process
+        cfg_entries = tuple(n for n in P.fns if n.split('::')[-1] in ('to_config', 'generate_prefix_stmts') and '{closure' not in n)
+        cfg_scan = statescan.scan(P, mir_text, entries=cfg_entries)
+        for f in cfg_scan['findings']:
+            if f['kind'] == 'static-reachable-from-rewrite':
+                f = dict(f, kind='static-reachable-from-configuration-construction')
+                findings.append(f)
+        if scan_info is None:
+            scan_info = {'statics': cfg_scan['statics'], 'reachable_functions': cfg_scan['reachable_functions'], 'total_functions': cfg_scan['total_functions'], 'findings': [], 'reachable': cfg_scan['reachable'], 'configuration_types_scanned': cfg_scan['configuration_types_scanned']}
+        scan_info['configuration_entries'] = list(cfg_entries)
+        scan_info['findings'] = findings
+        for f in findings:
+            allv.append({'prop': prop, 'role': 'state/%s:%s' % (f['kind'], f.get('item', ','.join(f.get('functions', [])))), 'detail': json.dumps(f), 'trace': [], 'witness': {'input': json.dumps(f), 'agree': True, 'note': 'static call-graph finding on the MIR'}})
     wall = time.time() - t0
     # ---- triage
     by_role = collections.OrderedDict()
